@@ -16,6 +16,12 @@ families (both spaces): EQUAL OFFENDERS - 2..25 structurally equal nodes (Node._
    attribute the cleaner / advtree / the writers' style helpers read x every way a number can be (mis)spelled in html
    (float-ish, infinities, nan, exponents that overflow, hex, digit strings beyond CPython's int-conversion limit, Unicode
    digits, signs, blanks), on every element kind that can carry it.
+   REFERENCE NAMES - one footnote name written in every way two spellings can be "the same name to a reader": blanks around /
+   inside the quoted value, quoting style, case, Unicode look-alikes, each as definition and as empty use, before and after;
+   CAPTIONED TABLES - a caption of 0..11 inline nodes (text, bold, italics, links, big, ref, image, break) x every size / shape /
+   class / style trigger of a table pass of the cleaner (see TABLE_TRIGGERS), with and without lead text (infobox marking);
+   LINKS IN REFERENCES (space 2) - the same article linked several times with different / equal / no labels inside one
+   reference, across references and in the body text.
 space 3 (deep, C05 only): forbidden-nesting pairs and row-copying tables whose offending ancestor also holds a chain
    of 41..DEEP_MAX nested html tags (deep, but parseable: the parser and the passes need 1-2 interpreter frames per
    level, copy.deepcopy ~6) - passes then fail half-way with RecursionError and the tree must still be proper."""
@@ -26,6 +32,8 @@ class Words:
     def __init__(self, prefix="w"):
         self.n = 0
         self.prefix = prefix
+        self.targets = []        # article targets linked so far in this document (pool for repeated links)
+        self.links = []          # complete [[..]] link texts written so far
 
     def __call__(self):
         self.n += 1
@@ -36,6 +44,69 @@ class Words:
 
 
 # ------------------------------------------------------------------ space 2
+def artlink(rng, W, here=None, p_here=0.0, p_pool=0.15):
+    """an article link; its target is fresh, or (p_pool) one that the document links already, or (p_here) one that the same
+    reference links already; labelled with fresh words (different labels for one target), unlabelled, or - rarely - an earlier
+    link repeated verbatim"""
+    r = rng.random()
+    if here and r < p_here:
+        t = rng.choice(here)
+    elif W.targets and r < p_here + p_pool:
+        t = rng.choice(W.targets)
+    else:
+        t = "T%s" % W()
+    if t not in W.targets:
+        W.targets.append(t)
+    if here is not None and t not in here:
+        here.append(t)
+    k = rng.random()
+    same = [x for x in W.links if x.startswith("[[%s|" % t) or x == "[[%s]]" % t]
+    if same and k < 0.15:
+        x = rng.choice(same)
+    elif k < 0.7:
+        x = "[[%s|%s]]" % (t, W.some(rng, 1, 3))
+    else:
+        x = "[[%s]]" % t
+    W.links.append(x)
+    return x
+
+
+def refcontent(rng, W):
+    """the text of one footnote: words, styled words and article links - 45%% of the links go to an article that this
+    footnote links already (with another label, the same label, or none)"""
+    here = []
+    parts = []
+    for _ in range(rng.randint(1, 5)):
+        r = rng.random()
+        if r < 0.45:
+            parts.append(W.some(rng, 1, 4))
+        elif r < 0.55:
+            parts.append("''%s''" % W.some(rng, 1, 3))
+        elif r < 0.92:
+            parts.append(artlink(rng, W, here, 0.45, 0.2))
+        else:
+            parts.append("[http://example.com/%s %s]" % (W(), W.some(rng, 1, 2)))
+    if not any(not p.startswith("[[") for p in parts):
+        parts.insert(rng.randint(0, len(parts)), W())
+    return " ".join(parts)
+
+
+def refname(rng, named):
+    """(attribute text, defines?) for a named reference: a new name, or one of the document's names - as it was written, or
+    (25%%) in another spelling of NAME_VARIANTS (blanks, quoting, case, look-alikes): a different name for the cleaner or the
+    same one, never a reason to lose the footnote's text"""
+    if named and rng.random() < 0.5:
+        nm = rng.choice(named)
+        if rng.random() < 0.25:
+            return spell_name(rng, rng.choice(name_variants(nm))), False
+        return '"%s"' % nm, False
+    nm = rng.choice(REF_BASES[:3]) + str(len(named) + 1) if rng.random() < 0.3 else "n%d" % (len(named) + 1)
+    named.append(nm)
+    if rng.random() < 0.25:
+        return spell_name(rng, rng.choice(name_variants(nm))), True
+    return '"%s"' % nm, True
+
+
 def inline(rng, W, depth=0, allow_ref=True, named=None):
     parts = []
     for _ in range(rng.randint(1, 4)):
@@ -47,7 +118,7 @@ def inline(rng, W, depth=0, allow_ref=True, named=None):
         elif r < 0.65:
             parts.append("'''%s'''" % W.some(rng, 1, 3))
         elif r < 0.72:
-            parts.append("[[T%s|%s]]" % (W(), W.some(rng, 1, 2)))
+            parts.append(artlink(rng, W) if rng.random() < 0.4 else "[[T%s|%s]]" % (W(), W.some(rng, 1, 2)))
         elif r < 0.78:
             parts.append("[[T%s]]" % W())
         elif r < 0.82:
@@ -55,19 +126,17 @@ def inline(rng, W, depth=0, allow_ref=True, named=None):
         elif r < 0.86:
             parts.append("<small>%s</small>" % W.some(rng, 1, 2))
         elif r < 0.95 and allow_ref:
+            content = (lambda: refcontent(rng, W)) if rng.random() < 0.5 else (lambda: inline(rng, W, depth + 2, False))
             if named is not None and rng.random() < 0.35:
-                if named and rng.random() < 0.5:
-                    parts.append('<ref name="%s"/>' % rng.choice(named))
+                att, defines = refname(rng, named)
+                if not defines:
+                    parts.append("<ref name=%s/>" % att)
                 elif rng.random() < 0.2:          # used before it is defined (the definition follows at once)
-                    nm = "n%d" % (len(named) + 1)
-                    named.append(nm)
-                    parts.append('<ref name="%s"/> %s <ref name="%s">%s</ref>' % (nm, W.some(rng, 1, 2), nm, inline(rng, W, depth + 2, False)))
+                    parts.append("<ref name=%s/> %s <ref name=%s>%s</ref>" % (att, W.some(rng, 1, 2), att, content()))
                 else:
-                    nm = "n%d" % (len(named) + 1)
-                    named.append(nm)
-                    parts.append('<ref name="%s">%s</ref>' % (nm, inline(rng, W, depth + 2, False)))
+                    parts.append("<ref name=%s>%s</ref>" % (att, content()))
             else:
-                parts.append("<ref>%s</ref>" % inline(rng, W, depth + 2, False))
+                parts.append("<ref>%s</ref>" % content())
         else:
             parts.append("[http://example.com/%s %s]" % (W(), W.some(rng, 1, 2)))
     return " ".join(parts)
